@@ -81,6 +81,8 @@ impl Regions {
         let file_len = self.file_len()?;
         if file_len < len {
             self.file.set_len(len as u64)?;
+            #[cfg(anydb_verif)]
+            crate::verif::io(|| crate::verif::IoEvent::SetLen { meta: true, len });
             self.mmap = create_mmap(&self.file)?;
         }
         Ok(())
@@ -175,12 +177,16 @@ impl Regions {
 
     /// Schedules metadata writeback. Caller must follow with `sync_data()`.
     pub(crate) fn flush(&self) -> Result<()> {
+        #[cfg(anydb_verif)]
+        crate::verif::io(|| crate::verif::IoEvent::FlushAsync { meta: true });
         self.mmap.flush_async()?;
         Ok(())
     }
 
     pub(crate) fn sync_data(&self) -> Result<()> {
         self.file.sync_data()?;
+        #[cfg(anydb_verif)]
+        crate::verif::io(|| crate::verif::IoEvent::Sync { meta: true });
         Ok(())
     }
 
@@ -188,6 +194,8 @@ impl Regions {
         debug_assert_eq!(data.len(), SIZE_OF_REGION_METADATA);
         let offset = index * SIZE_OF_REGION_METADATA;
         write_to_mmap(&self.mmap, offset, data);
+        #[cfg(anydb_verif)]
+        crate::verif::io(|| crate::verif::IoEvent::WMeta { off: offset, bytes: data.to_vec() });
     }
 
     #[inline]
